@@ -212,6 +212,7 @@ func (c *Channel) Empty() error {
 		client.Empty()
 	}
 
+	verifPoint("empty:before-drain")
 	for {
 		select {
 		case <-c.zoneLocalMsgChan:
